@@ -766,8 +766,12 @@ func ruleC18Names(r *Run, p *Program, rule string) {
 		{
 			var scan []Node
 			for _, nd := range oss {
-				if c := nd.In.(*ssa.Call); len(c.Call.Args) > 1 && nameAbs(nd.Ctx, c.Call.Args[1], 0) == "DIRENT" {
-					scan = append(scan, nd)
+				c := nd.In.(*ssa.Call)
+				for _, a := range logicalArgs(&c.Call) {
+					if b, ok := a.T.Underlying().(*types.Basic); ok && b.Kind() == types.String && a.V != nil && nameAbs(nd.Ctx, a.V, 0) == "DIRENT" {
+						scan = append(scan, nd)
+						break
+					}
 				}
 			}
 			oss = scan
